@@ -174,6 +174,8 @@ fn main() {
         #[cfg(feature = "c03")]
         "c03e2e" => c03::run("c03e2e", &args),
         #[cfg(feature = "c03")]
+        "c03glyphs" => c03::run_glyphs(&args),
+        #[cfg(feature = "c03")]
         "c04e2e" => c03::run("c04e2e", &args),
         #[cfg(feature = "c03")]
         "c04adv" => c03::run_adv(&args),
